@@ -22,7 +22,7 @@ func init() {
 			"document-level/important option bits; each row must equal All &^ union(disabled(m)) with the disabled() table taken from the property statement. " +
 			"R2: IsOptionEnabled is (enabled & o) == o on all 3-bit operands. R3: for every document-level modifier name, loadOption (setOptionEnabled inlined) ors exactly the documented option bits into enabledOptions, " +
 			"for every prior option state (order independence). R4: Engine.GetCosmeticResult passes option&K==K to the parameter of CosmeticEngine.Match that gates feature K (roles derived from the callee's own guards). " +
-			"R5: the proxy's HTML filter call is guarded by option != None. Nothing is executed; the tables are extracted from the source and compared inside the checker.",
+			"R5: the proxy's HTML filter call is guarded by option != None. R3 also: each modifier is accepted (nil error) for every prior option state that does not already contain all its bits. R8: every store to enabledOptions is 'enabledOptions | bits' (documented exception: ~extension). Nothing is executed; the tables are extracted from the source and compared inside the checker.",
 		Trusted: []string{
 			"spec tables transcribed from the property statement: disabled(elemhide)=CSS|GenericCSS, disabled(generichide)=GenericCSS, disabled(jsinject)=JS; $document = elemhide+jsinject+urlblock+content+extension",
 		},
